@@ -20,6 +20,10 @@ import OH.Props.ArithC02IterNext
 import OH.Props.ArithC02IterNew
 import OH.Props.ArithC01Week
 import OH.Props.ArithC01WeekDays
+import OH.Props.ArithC01WeekDay
+import OH.Props.ArithC01WeekDayHint
+import OH.Props.ArithC01TimeSel
+import OH.Props.ArithC01TimeSelLink
 #print axioms OH.Props.C02.C02_total_partial
 #print axioms OH.Props.C02.C02_iter_range_exact_partial
 #print axioms OH.Props.C02.C02_pointwise_partial
@@ -230,3 +234,19 @@ import OH.Props.ArithC01WeekDays
 #print axioms OH.Props.ArithC01Week.weekRange_hint_total
 #print axioms OH.Props.ArithC01WeekDays.countDaysInMonth_agree
 #print axioms OH.Props.ArithC01WeekDays.countDaysInMonth_panic
+#print axioms OH.Props.ArithC01WeekDay.weekDayRange_fixed_agree
+#print axioms OH.Props.ArithC01WeekDay.weekDayRange_simple_agree
+#print axioms OH.Props.ArithC01WeekDay.weekDayRange_holiday_agree
+#print axioms OH.Props.ArithC01WeekDay.weekDayRange_fuel_zero
+#print axioms OH.Props.ArithC01WeekDay.weekDayRange_fuel_one_wrapping
+#print axioms OH.Props.ArithC01WeekDayHint.weekDayRange_hint_holiday_agree
+#print axioms OH.Props.ArithC01WeekDayHint.weekDayRange_hint_fixed_agree
+#print axioms OH.Props.ArithC01TimeSel.fixedRange_full
+#print axioms OH.Props.ArithC01TimeSel.spanImmutable_eq_decide
+#print axioms OH.Props.ArithC01TimeSel.spanImmutable_eq_model
+#print axioms OH.Props.ArithC01TimeSel.all_eq_decide
+#print axioms OH.Props.ArithC01TimeSel.selImmutable_eq_model
+#print axioms OH.Props.ArithC01TimeSel.is0024_eq_decide
+#print axioms OH.Props.ArithC01TimeSel.is0024_eq_model
+#print axioms OH.Props.ArithC01TimeSel.ruleIsConstant_linked
+#print axioms OH.Props.ArithC01TimeSelLink.hintMap_linked
